@@ -375,3 +375,40 @@ def run(ctx):
     from . import c19 as _c19_06
     if type(ctx).__name__ != 'SubCtx':
         _c19_06.run(_Sub06(ctx, 'C06.4-receiver-goes-on', 'c19', allow=('C19.3-exit-classification', 'C19.3-sync-after-error')))
+
+
+_run_before_teardown_rule = run
+
+
+def run(ctx):
+    _run_before_teardown_rule(ctx)
+    teardown_owners(ctx, 'C06.8-teardown-only-on-close')
+
+
+def teardown_owners(ctx, rule):
+    """who may drop the socket halves / reset the handshake state of a connection"""
+    P = ctx.P
+    ctx.rule(rule, 'the connection gives up its socket and its handshake state only in close(): no read or write wrapper does so on an error of the transport - '
+             'a read that timed out at a frame boundary has consumed nothing, the caller simply reads again, and every frame the peer sends afterwards must still be delivered', floor=2)
+    OWNED = ('edp_client::transport::FramedTransport::close', 'edp_client::state_machine::HandshakeStateMachine::disconnect')
+    OWNERS = ('edp_client::connection::Connection::close', 'edp_client::connection::Connection::disconnect', '<edp_client::connection::Connection as core::ops::Drop>::drop')
+    n = 0
+    for q in sorted(ctx.F.bodies):
+        if not q.startswith(('edp_client::connection::', '<edp_client::connection::')) or '::tests::' in q or ctx.F.bodies[q]['kind'] not in ('Fn', 'AssocFn', 'Closure'):
+            continue
+        DB = P.B(q)
+        host = q.split('::{')[0]
+        for bb, t in DB.calls():
+            if bb not in DB.live_blocks():
+                continue
+            for nm in callee_names(t):
+                if nm in OWNED:
+                    n += 1
+                    short = '::'.join(nm.rsplit('::', 2)[1:])
+                    if host in OWNERS:
+                        ctx.ok(rule, '%s<-%s' % (short, host.rsplit('::', 1)[1]), 'called from close', ctx.where(DB, bb))
+                    else:
+                        ctx.bad(rule, '%s<-%s' % (short, host.rsplit('::', 1)[1]), '%s calls %s: a transport error (an idle timeout among them) now costs the socket and the connected state, '
+                                'and whatever the peer sends afterwards is never delivered' % (host.rsplit('::', 1)[1], short), ctx.where(DB, bb), key='WHO:%s:calls-%s' % (host, short))
+    if n == 0:
+        ctx.ok(rule, 'none', 'nothing tears the connection down')
